@@ -23,7 +23,7 @@ package buffnetlink
 //@   locals b:[]byte | usars:map[uint64][]report.USAReport | hdr:nl.AttrHdr | n:int | err:error | seid:uint64 | pdrid:uint16 | action:uint16 | pkt:[]byte | err:error | dldr:report.DLDReport | rs:[]gtp5gnl.USAReport | err:error | r:gtp5gnl.USAReport | usar:report.USAReport | seid:uint64 | rs:[]report.USAReport | usars:[]report.Report | r:report.USAReport
 //@   requires s != nil && msg != nil && s.handler != nil && len(msg.Body) >= 4
 //@   modifies *
-//@   serves C10 C13 C07
+//@   serves C10 C13 C19 C07
 //@   after call DecodeAttrHdr:
 //@     assume [A-KMSG] ret2 == nil ==> 0 <= ret1 && ret1 <= len(b)
 //@   at call decodbuffer:
@@ -34,6 +34,7 @@ package buffnetlink
 //@                   arg0.Reports[0].(report.DLDReport).BufPkt == pkt
 //@   at call SetReportingTrigger:
 //@     assert [cause] arg0 == r.USARTrigger
+//@     assert [clean] recv.Flags == 0
 //@   at call append#1:
 //@     assert [conv] len(arg1) == 1 && arg0 == usars[r.SEID] && arg1[0].URRID == r.URRID && arg1[0].QueryUrrRef == r.QueryUrrRef &&
 //@                   arg1[0].StartTime == r.StartTime && arg1[0].EndTime == r.EndTime &&
